@@ -65,6 +65,30 @@ def shutdownActions (reached : List String) : List Action :=
   (reached.take maxLeaveNotified).map .pushLeave ++
   [.gossipClose, .adminShutdown, .waitGoroutines]
 
+/-- the call of `Server.Shutdown` each phase stands for, as the fact extractor renders it
+(`harness/cmd/facts/facts_shutdown.go`); the pushes happen inside `gossiper.Leave` -/
+def Action.callName : Action → Option String
+  | .stopJWKS => some "stopJWKSRefresher"
+  | .notReady => some "adminServer.SetReady"
+  | .upstreamShutdown => some "shutdownUpstreamServer"
+  | .proxyShutdown => some "shutdownProxyServer"
+  | .leaveLocal => some "gossiper.Leave"
+  | .pushLeave _ => none
+  | .gossipClose => some "gossiper.Close"
+  | .adminShutdown => some "shutdownAdminServer"
+  | .waitGoroutines => some "wg.Wait"
+
+/-- position of the first occurrence of `a` (`none` if absent) -/
+def callIndex (a : String) (l : List String) : Option Nat :=
+  let i := l.findIdx (· = a)
+  if i < l.length then some i else none
+
+/-- `a` and `b` both occur in `l` and `a` comes first -/
+def callPrecedes (a b : String) (l : List String) : Bool :=
+  match callIndex a l, callIndex b l with
+  | some i, some j => decide (i < j)
+  | _, _ => false
+
 structure St where
   /-- upstream server, manager, cluster-local endpoints, own gossip state -/
   srv : Srv
